@@ -29,6 +29,9 @@ func InitGenesis(ctx sdk.Context, k keeper.Keeper, genState types.GenesisState) 
 			panic(fmt.Errorf("failed to set feeder delegation (%s)", err))
 		}
 	}
+
+	// publish the round description for the first block
+	k.SetCurrentRoundInfo(ctx, k.CalculateNextRoundInfo(ctx))
 }
 
 // ExportGenesis returns the module's exported genesis
